@@ -21,3 +21,35 @@ Proof.
   pose proof (parse_tokens_inv o tables_ok toks Hr) as H. unfold parse_tokens in H.
   destruct (parse_input o (toks, LEnd)); auto.
 Qed.
+
+(* ---- the other direction (LRComplete.v) ---- *)
+From GMK Require Import LRComplete.
+Definition ctables_ok : cparts := complete_ok_parts complete_ok_true.
+
+Theorem parse_bytes_complete : forall o bs toks v,
+  lex_bytes bs = (toks, LEnd) -> derives o g_start toks v -> parse_bytes o bs = Accept v.
+Proof.
+  intros o bs toks v Hl Hd. destruct (lex_bytes_spec bs) as [toks' [Hl' [_ [Hr _]]]].
+  rewrite Hl in Hl'. inversion Hl'; subst toks'.
+  unfold parse_bytes. rewrite Hl.
+  exact (parse_tokens_complete o tables_ok ctables_ok toks v Hr Hd).
+Qed.
+
+(* Parse succeeds EXACTLY on the byte strings whose token list is a sentence, with exactly the grammar's tree *)
+Theorem parse_bytes_exact : forall o bs v,
+  parse_bytes o bs = Accept v <-> exists toks, lex_bytes bs = (toks, LEnd) /\ derives o g_start toks v.
+Proof.
+  intros o bs v. split.
+  - intros H. destruct (parse_bytes_inv o bs) as [toks [Hl [_ [_ Hm]]]]. rewrite H in Hm. exists toks. split; auto.
+  - intros [toks [Hl Hd]]. eapply parse_bytes_complete; eauto.
+Qed.
+
+(* the grammar assigns at most one tree to a list of real tokens *)
+Theorem grammar_unambiguous : forall o toks v v', Forall real_token toks ->
+  derives o g_start toks v -> derives o g_start toks v' -> v = v'.
+Proof.
+  intros o toks v v' Hr H1 H2.
+  pose proof (parse_tokens_complete o tables_ok ctables_ok toks v Hr H1) as E1.
+  pose proof (parse_tokens_complete o tables_ok ctables_ok toks v' Hr H2) as E2.
+  rewrite E1 in E2. inversion E2. reflexivity.
+Qed.
